@@ -112,6 +112,7 @@ class Check:
         self.regen_s = 0.0
         self.vac = {'cover': 0, 'twin': 0}
         self.ob_timeout = 20000 if self.tier == 'quick' else 120000
+        self.cross = {}
         try:
             self.known = json.load(open(KNOWN)).get('findings', [])
         except Exception:
@@ -200,6 +201,29 @@ class Check:
                 self.validated += 1
 
     # ------------------------------------------------------------------------------------------
+    def cross_check(self, conds):
+        """thorough tier: an `unsat` verdict is re-decided by an independent solver build (z3 4.8.12, /usr/bin/z3) on the SMT-LIB2 export of the
+        same query; 'sat' there makes the obligation inconclusive, a time-out is only counted."""
+        import subprocess, shutil
+        exe = '/usr/bin/z3'
+        if not os.path.exists(exe): return 'unavailable'
+        s = z3.Solver(); s.add(*[c for c in conds if not isinstance(c, bool)])
+        try:
+            r = subprocess.run([exe, '-in', '-T:8'], input='(set-logic ALL)\n' + s.to_smt2(), capture_output=True, text=True, timeout=20)
+        except Exception:
+            return 'unknown'
+        out = r.stdout.strip().split('\n')
+        if any(l.startswith('(error') for l in out): return 'error'
+        v = out[0] if out and out[0] in ('sat', 'unsat', 'unknown') else 'unknown'
+        if v == 'unknown' and shutil.which('cvc5'):
+            try:
+                r2 = subprocess.run(['cvc5', '--lang', 'smt2', '--tlimit=8000'], input='(set-logic ALL)\n' + s.to_smt2(), capture_output=True, text=True, timeout=20)
+                o2 = r2.stdout.strip().split('\n')
+                if o2 and o2[0] in ('sat', 'unsat') and not any(l.startswith('(error') for l in o2): return o2[0] + ' (cvc5)'
+            except Exception:
+                pass
+        return v
+
     def solve(self, conds, timeout_ms=None):
         s = z3.Solver(); s.set('timeout', timeout_ms or self.ob_timeout); s.set('random_seed', self.seed)
         s.add(*[c for c in conds if not isinstance(c, bool)])
@@ -236,6 +260,11 @@ class Check:
                 if r != z3.unknown: break
         rec = dict(id=oid, verdict=str(r), s=round(dt, 3), desc=desc, path=path.short(), tag=path.tag)
         self.oblig.append(rec)
+        if r == z3.unsat and self.tier == 'thorough' and not os.environ.get('VERIF_NO_CROSS'):
+            x = self.cross_check(conds + [violation]); rec['cross_solver'] = x
+            self.cross[x] = self.cross.get(x, 0) + 1
+            if x.startswith('sat'):
+                self.inconclusive.append('%s: z3 %s says unsat, a second solver says sat on the exported query' % (oid, z3.get_version_string())); return 'unknown'
         if r == z3.unsat: return 'unsat'
         if r == z3.unknown:
             self.inconclusive.append('%s: solver returned unknown (%.1fs)' % (oid, dt)); return 'unknown'
@@ -350,7 +379,7 @@ class Check:
                    solver_time_s=round(self.solver_s, 2), mir_regeneration_s=round(self.regen_s, 2),
                    functions_encoded=sorted(self.functions), models_used=sorted(self.models), stubs=sorted(self.stubs),
                    bounds=self.bounds, outside_bounds=self.outside,
-                   cover_queries=self.vac['cover'],
+                   cover_queries=self.vac['cover'], cross_solver_second_opinion=dict(self.cross),
                    known_findings_matched=[o for o, _ in self.known_hits],
                    inconclusive=self.inconclusive[:20],
                    obligation_list=[dict(id=o['id'], verdict=o['verdict'], s=o['s'], path=o['path']) for o in self.oblig][:400],
